@@ -277,3 +277,7 @@ CHECKS['C03']['text'] = CHECKS['C03']['text'].replace(
     'positive bonds (25 theorems).',
     'positive bonds. Round 6: zero-tolerance from_vector is total -- for every vector, the zero vector included (defect F12, repaired), the call '
     'returns and reproduces the vector (C13.from_vector_tol0_total) (26 theorems).')
+CHECKS['C10']['text'] = CHECKS['C10']['text'] + (
+    " Known finding F13 (recorded in known_findings.txt, replayed on every run, printed as KNOWN-FINDING): for two-site DMRG with a genuine truncation "
+    "(tol_split > 0) the clause 'energy of the returned state = last reported energy' is false on the real code (the Ritz value is reported before the "
+    "truncating split); it is proved and demanded for tol_split = 0 and for single-site DMRG.")
